@@ -1008,5 +1008,6 @@ func runC09(c *gen.Ctx) error {
 		}
 	}
 	c09PeerGen(c)
+	c09PeerLoopGen(c)
 	return nil
 }
